@@ -33,8 +33,9 @@ def run(rep: Report, tier: str) -> None:
 		raise AnalysisError('Serialization.__dumps/__loads vanished')
 
 	# alias-expanded copies of the two functions (temporaries such as `tree_map = entry_tree['source_map']` are substituted)
-	dumps_x = Expander(dumps).expand(dumps.node)
-	loads_x = Expander(loads).expand(loads.node)
+	from vlib.match import merged_function, split_tuple_assigns
+	dumps_x = merged_function(dumps)
+	loads_x = split_tuple_assigns(merged_function(loads))
 
 	r = rep.rule('C15/field-symmetry', 'keys written per branch by __dumps == keys read per branch by __loads; discriminators and source_map order agree', floor=6)
 	wd = returned_dicts(dumps_x)
@@ -118,6 +119,23 @@ def run(rep: Report, tier: str) -> None:
 		if len(own) != 1 or not spans:
 			r.skip(key, (ENTRY, d.lineno), f'entry of the record not recognised (name from {sorted(own)}, span from {sorted(spans)})')
 			continue
+		# name and token text are stored as they are: any transformation (strip, lower, slicing, re-quoting) makes the restored token differ from the parsed one
+		for fld in ('name', 'value'):
+			if fld in fields:
+				v_ = fields[fld]
+				seen_ = 0
+				while isinstance(v_, ast.Name) and seen_ < 3:
+					defs_ = may_reach(dumps.node, v_) or []
+					vals_ = [getattr(d_, 'value', None) for d_ in defs_]
+					if len(vals_) != 1 or vals_[0] is None:
+						break
+					v_ = vals_[0]
+					seen_ += 1
+				verbatim = isinstance(v_, ast.Attribute) and v_.attr == fld
+				if isinstance(v_, ast.Name):
+					r.skip(f'writer:{kind}:{fld}-verbatim', (ENTRY, d.lineno), f'value of `{fld}` not resolved: {unparse(fields[fld])[:60]}')
+				else:
+					r.check(verbatim, f'writer:{kind}:{fld}-verbatim', (ENTRY, d.lineno), f'the {kind} record stores `{fld}` as `{unparse(v_)[:70]}`, not the entry\'s {fld} itself: the restored token differs from the freshly parsed one (a comment with trailing blanks comes back shorter: `Node.tokens`, `Comment.text` and the emitted `// ...` line change between the first and later runs)', unparse(d)[:160])
 		r.check(spans == own and texts == own, key, (ENTRY, d.lineno), f'the {kind} record written for `{sorted(own)[0]}` can carry the span of {sorted(spans)} / the text of {sorted(texts)}: the span variable is re-bound on a path between its computation and this record, so after a cache restore the node covers another entry\'s source range (source quotations, error positions and reprs differ from a fresh parse)', unparse(d)[:160])
 
 	# the restored children are a re-iterable list (the view reads them more than once; a one-shot iterator is empty on the second reading)
@@ -165,15 +183,17 @@ def run(rep: Report, tier: str) -> None:
 	except Exception as e:
 		raise AnalysisError(f'cannot read lark constructor signatures: {e}')
 	restored_tree, restored_tok, restored_meta = set(), set(), set()
+	meta_names = {t.id for n in ast.walk(loads_x) if isinstance(n, (ast.Assign, ast.AnnAssign)) and getattr(n, 'value', None) is not None and isinstance(n.value, ast.Call) and (attr_chain(n.value.func) or '').endswith('Meta') for t in (n.targets if isinstance(n, ast.Assign) else [n.target]) if isinstance(t, ast.Name)} or {'meta'}
+	token_names = {t.id for n in ast.walk(loads_x) if isinstance(n, (ast.Assign, ast.AnnAssign)) and getattr(n, 'value', None) is not None and isinstance(n.value, ast.Call) and attr_chain(n.value.func) == 'lark.Token' for t in (n.targets if isinstance(n, ast.Assign) else [n.target]) if isinstance(t, ast.Name)} or {'token'}
 	for n in ast.walk(loads_x):
 		if isinstance(n, ast.Call) and attr_chain(n.func) == 'lark.Tree':
 			restored_tree |= set(tree_params[:len(n.args)]) | {k.arg for k in n.keywords}
 		if isinstance(n, ast.Call) and attr_chain(n.func) == 'lark.Token':
 			restored_tok |= set(tok_params[:len(n.args)]) | {k.arg for k in n.keywords}
 		if isinstance(n, ast.Assign) and isinstance(n.targets[0], ast.Attribute) and isinstance(n.targets[0].value, ast.Name):
-			if n.targets[0].value.id == 'meta':
+			if n.targets[0].value.id in meta_names:
 				restored_meta.add(n.targets[0].attr)
-			elif n.targets[0].value.id == 'token':
+			elif n.targets[0].value.id in token_names:
 				restored_tok.add(n.targets[0].attr)
 	restored_tok = {{'type_': 'type'}.get(x, x) for x in restored_tok}
 	tree_attrs = {'data', 'children', 'meta'}
@@ -189,17 +209,18 @@ def run(rep: Report, tier: str) -> None:
 		rv.check(a in restored_meta, f'Meta.{a}', view.where, f'EntryOfLark reads meta.{a} but __loads does not restore it (restored: {sorted(restored_meta)})')
 	# provenance: every restored position-related field is a function of the stored `source_map` (or a constant) only
 	rp = rep.rule('C15/position-provenance', 'each position-related field restored by __loads (line, column, end_line, end_column, meta.empty) is computed from the stored source_map or is a constant — never from other parts of the entry', floor=9)
+	entry_names = {'entry_tree', 'entry_token', 'entry'} | {p_ for p_ in loads.params() if p_ not in ('cls', 'self')}
 	for n in ast.walk(loads_x):
-		if isinstance(n, ast.Assign) and isinstance(n.targets[0], ast.Attribute) and isinstance(n.targets[0].value, ast.Name) and n.targets[0].value.id in ('meta', 'token') and n.targets[0].attr in ('line', 'column', 'end_line', 'end_column', 'empty', 'start_pos', 'end_pos'):
+		if isinstance(n, ast.Assign) and isinstance(n.targets[0], ast.Attribute) and isinstance(n.targets[0].value, ast.Name) and n.targets[0].value.id in (meta_names | token_names) and n.targets[0].attr in ('line', 'column', 'end_line', 'end_column', 'empty', 'start_pos', 'end_pos'):
 			v = n.value
 			names = {x.id for x in ast.walk(v) if isinstance(x, ast.Name)}
 			keys = {const_str(x.slice) for x in ast.walk(v) if isinstance(x, ast.Subscript) and const_str(x.slice) is not None}
 			is_const = isinstance(v, ast.Constant)
-			ok = is_const or (names <= {'entry_tree', 'entry_token', 'entry'} and keys <= {'source_map'} and bool(keys))
+			ok = is_const or (names <= entry_names and keys <= {'source_map'} and bool(keys))
 			if n.targets[0].attr == 'empty' and is_const:
 				# the view returns the stored span only when `not meta.empty`; the writer stores (0,0,0,0) for trees without a span, so the restored flag must be False
 				ok = v.value is False
-			rp.check(ok, f'{n.targets[0].value.id}.{n.targets[0].attr}', (ENTRY, n.lineno), f'`{unparse(n)}` makes a restored position field depend on {sorted(names - {"entry_tree", "entry_token", "entry"}) or sorted(keys - {"source_map"}) or "a constant that hides the stored span"}: EntryOfLark.source_map of the restored tree then differs from the span stored by __dumps (e.g. a childless tree such as `pass` or `[]` loses its span)', unparse(n))
+			rp.check(ok, f'{n.targets[0].value.id}.{n.targets[0].attr}', (ENTRY, n.lineno), f'`{unparse(n)}` makes a restored position field depend on {sorted(names - entry_names) or sorted(keys - {"source_map"}) or "a constant that hides the stored span"}: EntryOfLark.source_map of the restored tree then differs from the span stored by __dumps (e.g. a childless tree such as `pass` or `[]` loses its span)', unparse(n))
 
 	# who else reads the raw lark objects? (Entry.source consumers)
 	src_users = []
